@@ -131,6 +131,15 @@ def _run_grain(desc):
                     sh.violation("eps_sample:not-rotated-seth-hill", case, {"got": Esam, "expected": np.dot(Rm, np.dot(want, Rm.T))}); ok = False
                 elif si == 0 and (np.abs(Eg).max() > 1e-12 or np.abs(Esam).max() > 1e-12):
                     sh.violation("strain:not-zero-for-reference-cell", case, {"grain": Eg}); ok = False
+                if ok and ref_ is not cell:
+                    # the same question put to the tensor class directly, the reference handed over as the grain object itself (its
+                    # docstring allows a grain for either argument) - and as that grain's UB array
+                    from ImageD11 import finite_strain as fs_
+                    Ed = fs_.DeformationGradientTensor(g, ref_).finite_strain_ref(m)
+                    Ea = fs_.DeformationGradientTensor(g.ubi, np.array(ref_.UB)).finite_strain_ref(m)
+                    if np.abs(Ed - Eg).max() > tol or np.abs(Ea - Eg).max() > tol:
+                        sh.violation("DeformationGradientTensor:reference-given-as-a-grain-object-differs-from-its-UB", case,
+                                     {"max_diff_grain_object": float(np.abs(Ed - Eg).max()), "max_diff_UB_array": float(np.abs(Ea - Eg).max())}); ok = False
                 if ok:
                     e6 = g.eps_grain(ref_, m)
                     s6 = g.eps_sample(ref_, m)
